@@ -103,7 +103,7 @@ class astfield(NamedTuple):
         can reside in `AST` trees."""
 
         return (getattr(parent, self.name, default) if (idx := self.idx) is None else
-                default if (body := getattr(parent, self.name, False)) is False or idx >= len(body) else
+                default if not isinstance(body := getattr(parent, self.name, False), list) or idx >= len(body) else
                 body[idx])
 
     def set(self, parent: AST, child: AST) -> None:
